@@ -43,6 +43,16 @@ theorem firstFail_isSome_of_mem (check : Policy ε) (env : Env) (gs : List RGuar
     rw [(firstFail_none_iff check env gs).mp hf g hm] at hg
     simp at hg
 
+/-- Guards the policy lets through do not influence the first failure. -/
+theorem firstFail_append_of_pass (check : Policy ε) (env : Env) (pre rest : List RGuard)
+    (h : ∀ g ∈ pre, check (g.val env) g.kind = none) :
+    firstFail check env (pre ++ rest) = firstFail check env rest := by
+  induction pre with
+  | nil => rfl
+  | cons g gs ih =>
+    simp only [List.cons_append, firstFail, h g List.mem_cons_self]
+    exact ih (fun g' hg' => h g' (List.mem_cons_of_mem _ hg'))
+
 /-- Consuming the wrapper's iterator is consuming the visible part of the
 backend's listing. -/
 theorem feed_filterCb (check : Policy ε) (k : Kind) (cb : σ → Ev ε → σ × Bool) (evs : List (Ev ε)) (s : σ) :
